@@ -23,6 +23,10 @@ var Corpus = [][]string{
 	// same port: the replacement must not lose its port between its stop and its start
 	{`POST /proxies h {"name":"p1","listen":"127.0.0.1:$A","upstream":"u:1"}`, `POST /proxies h {"name":"p2","listen":"127.0.0.1:$B","upstream":"u:1"}`, "||",
 		`POST /proxies/p2 h {"listen":"127.0.0.1:$A"}`, `POST /populate h [{"name":"p1","listen":"127.0.0.1:$A","upstream":"u:2"}]`},
+	// a populate replacing a *stopped* proxy, racing the enabling of that proxy: the old object
+	// must not come back to life on the port the replacement is about to bind
+	{`POST /proxies h {"name":"p1","listen":"127.0.0.1:$A","upstream":"u:1","enabled":false}`, "||",
+		`POST /populate h [{"name":"p1","listen":"127.0.0.1:$A","upstream":"u:2"}]`, `POST /proxies/p1 h {"enabled":true}`},
 	{"||", `POST /proxies h {"name":"p1","listen":"127.0.0.1:$A","upstream":"u:1"}`, `POST /proxies h {"name":"p1","listen":"127.0.0.1:$B","upstream":"u:1"}`,
 		`POST /proxies h {"name":"p2","listen":"127.0.0.1:$A","upstream":"u:1"}`},
 	{`POST /proxies h {"name":"p1","listen":"127.0.0.1:$A","upstream":"u:1"}`, "||", `DELETE /proxies/p1 h -`, `DELETE /proxies/p1 h -`, `DELETE /proxies/p1 h -`},
